@@ -66,7 +66,7 @@ def scenario(case):
         out["first"] = try_export(b.top)
         out["retry_same"] = try_export(b.top)
         out["retry_default"] = try_export(b.top)
-        offending = None
+        offending = case.get("module") if "raise" in out["first"] else None
     else:
         raise ValueError(kind)
     # a design sharing sub-modules: every module of the design that does not contain the offending one
@@ -117,6 +117,8 @@ def generator_scenario(seed):
         calls["n"] += 1
         inner = Inner(w=p.w)
         if calls["n"] == 1:
+            if seed % 2:
+                return None  # fails the result check, after the body returned
             raise ValueError("flaky generator body")
         m = h.Module()
         m.s = h.Signal(width=p.w)
@@ -167,7 +169,7 @@ def run(ctx):
     c02 = importlib.import_module("props.c02")
     for d in good[: max(2, ndes // 2)]:
         for mu in c02.mutants(d, rng, per_class=1):
-            jobs.append({"kind": "fault", "design": mu["design"], "fault": mu["class"], "unrelated": unrelated, "style": mu.get("style", "proc")})
+            jobs.append({"kind": "fault", "design": mu["design"], "fault": mu["class"], "module": mu["site"].split(".")[0], "unrelated": unrelated, "style": mu.get("style", "proc")})
     mo = ctx.drv.run([designs.sem_line(j, None) for j in jobs])
     jobs = [j for j, o in zip(jobs, mo) if j["kind"] == "inject" or "error" in o["src"]]
     results = common.pmap_fresh(scenario, jobs)
@@ -209,10 +211,10 @@ def run(ctx):
         if r["unrelated"] != fresh[(json.dumps(unrelated), "Unrelated")]:
             rep.fail("pred", case, {"why": "an unrelated design is affected", "got": r["unrelated"]})
     # generators
-    for k, r in enumerate(common.pmap_fresh(generator_scenario, list(range(3 if ctx.quick else 12)))):
+    for k, r in enumerate(common.pmap_fresh(generator_scenario, list(range(4 if ctx.quick else 12)))):
         case = {"stream": "generator", "seed": k}
         rep.count("generator", str(k))
-        if "raise" not in r["first"] or "flaky" not in r["first"]["raise"]:
+        if "raise" not in r["first"]:
             rep.fail("corr", case, r)
         elif "ok" not in r["second"]:
             rep.fail("pred", case, {"why": "a generator whose body raised once cannot be run again", "result": r})
